@@ -300,8 +300,8 @@ def jobs(tier):
 
 
 def all_jobs(tier):
-    from . import extra_misc
-    return jobs(tier) + extra_misc.jobs_for('C06', tier)
+    from . import extra_misc, mnode
+    return jobs(tier) + extra_misc.jobs_for('C06', tier) + mnode.jobs_for('C06', tier)
 
 
 def main(report, tier):
